@@ -104,7 +104,7 @@ def run(ck: Check) -> int:
                 fl |= F.IGNORECASE
             cases.append((p, fl))
         encn = ' '.join(common.enc(n) for n in names)
-        outs = drv.ask_many([f'spec {int(bool(fl & F.IGNORECASE))} 1 {common.enc(p)} {encn}' for p, fl in cases]) \
+        outs = drv.ask_many([f'spec {int(bool(fl & F.IGNORECASE))} 1 {int(bool(fl & F.DOTMATCH))} {common.enc(p)} {encn}' for p, fl in cases]) \
             if drv else []
         acc = rej = 0
         apis = ('fnmatch', 'filter', 'compile')
@@ -156,8 +156,8 @@ def run(ck: Check) -> int:
         sr.histogram['spec-rejects'] = rej
         sr.note = ('spec Pat.langB vs fnmatch.fnmatch / filter / compile().match on grammar patterns inside the '
                    'stated scope x all non-empty names <= 3 over "ab.A-" + extras (names with a leading dot only under '
-                   'DOTMATCH); a disagreement is attributed to KF-D1 iff a repeated group stands at the start of the '
-                   'pattern, to KF-D3 iff the name ends in a newline and the pattern has !( ; anything else is a violation')
+                   'DOTMATCH); a disagreement is attributed to KF-D1 iff a repeated group whose body carries a start guard stands at the start of the '
+                   'pattern (Pat.startSafe false), to KF-D3 iff the name ends in a newline and the pattern has !( ; anything else is a violation')
     ck.search('spec-vs-fnmatch', s_search)
     if drv:
         drv.close()
